@@ -162,6 +162,9 @@ def check_c12(tier):
     ress = run_space(exe, "c12s", tier, os.path.join(b.dir, "c12s.out"), extra=["--seqdepth", "6" if tier == "thorough" else "5"])
     add_violations(rep, ress, "C12")
     results.append(ress)
+    resh = run_space(exe, "c12h", tier, os.path.join(b.dir, "c12h.out"))
+    add_violations(rep, resh, "C12")
+    results.append(resh)
     resr = run_space(exe, "c12r", tier, os.path.join(b.dir, "c12r.out"))
     add_violations(rep, resr, "C12")
     nr, gr = eval_consistency(rep, resr); n += nr; g += gr
@@ -192,7 +195,7 @@ def check_c12(tier):
     rep.coverage["two_handle_evaluator_checks"] = nsel
     rep.coverage["states"] += nsel; rep.coverage["transitions"] += nsel; rep.coverage["traces_validated_against_impl"] += nsel
     rep.coverage["eval_observations"] = n; rep.coverage["distinct_assignments_evaluated"] = g
-    rep.assumptions += ["alphabet: handles {a,b} x solutions {euler_1d, heateq_2d_steady_const} x one parameter per solution with values {default, 7.5} x both registries (quick: reduced alphabet on the long double registry); space c12s: ALL operation sequences of an 11-operation (thorough: 13) registry alphabet up to depth 5 (thorough: 6) without state merging -- hidden library state cannot hide behind an equal observation; space c12r: handles {a,b} holding the radiation solution, every vector replaceable, re-initialisation with the same and another solution, init_param",
+    rep.assumptions += ["alphabet: handles {a,b} x solutions {euler_1d, heateq_2d_steady_const} x one parameter per solution with values {default, 7.5} x both registries (quick: reduced alphabet on the long double registry); space c12s: ALL operation sequences of an 11-operation (thorough: 13) registry alphabet up to depth 5 (thorough: 6) without state merging -- hidden library state cannot hide behind an equal observation; space c12h: handles {h2,h10,h3,H3} (orders differ between lexicographic, numeric and case-insensitive comparison); space c12r: handles {a,b} holding the radiation solution, every vector replaceable, re-initialisation with the same and another solution, init_param",
                         "reference model: map handle -> (solution, parameter map) + selection, per registry; defaults captured from a fresh process"]
     return rep.finish()
 
